@@ -95,6 +95,13 @@ class Escapes:
                 else:
                     out |= self._expr(ce, func, stack)
             return out | inner
+        if isinstance(st, ast.Match):
+            out |= self._expr(st.subject, func, stack)
+            for case in st.cases:
+                if case.guard is not None:
+                    out |= self._expr(case.guard, func, stack)
+                out |= self._block(case.body, func, stack)
+            return out
         # compound statements
         for fld in ("body", "orelse", "finalbody"):
             sub = getattr(st, fld, None)
